@@ -14,6 +14,7 @@ import (
 
 func init() { register("C03", checkC03) }
 
+var reNotFormattedAny = regexp.MustCompile(`(?m)^(?:::warning ::)?(\S+\.ra) not properly formatted$`)
 var rePrefixRef = regexp.MustCompile(`(?m)^##!\^ \{\{(\w+)\}\}`)
 
 // prefixUsesNestedDef: a prefix line refers to a definition whose value refers to another one.
@@ -240,6 +241,40 @@ func checkC03(c *Ctx) error {
 				"why": "the same tree gave different results in different processes"})
 		}
 	})
+	// 5. format --check --all over several unformatted files: the reports come in walk order
+	//    (Toolchain!FormatCheckAll is a fold over the files in walk order), the same in every run
+	for _, mode := range [][]string{{}, {"-o", "github"}} {
+		d, err := c.newSandbox("c03fa" + strings.Join(mode, ""))
+		if err != nil {
+			return err
+		}
+		ft := Tree{"regex-assembly/include/zz.ra": " w\n"}
+		var order []string
+		for k := 0; k < 6; k++ {
+			n := fmt.Sprintf("93210%d.ra", k)
+			ft["regex-assembly/"+n] = fmt.Sprintf("  entry%d\n", k)
+			order = append(order, n)
+		}
+		order = append(order, "zz.ra")
+		writeTree(d, ft)
+		seen := map[string]int{}
+		for k := 0; k < runs; k++ {
+			r := c.runCLI(d, "", append(append([]string{}, mode...), "-d", d, "regex", "format", "--check", "--all")...)
+			atomic.AddInt64(&cli, 1)
+			var rep []string
+			for _, m := range reNotFormattedAny.FindAllStringSubmatch(r.Stdout, -1) {
+				rep = append(rep, m[1])
+			}
+			seen[fmt.Sprintf("exit=%d reported=%s", r.Exit, strings.Join(rep, ","))]++
+		}
+		want := "exit=1 reported=" + strings.Join(order, ",")
+		if len(seen) != 1 || seen[want] != runs {
+			c.violation("determinism", map[string]any{"what": "format --check --all " + strings.Join(mode, " ") + " over 7 unformatted files", "distinct_results": seen, "expected": want,
+				"why": "the reports of format --check --all must come in walk order, the same in every run"})
+		}
+		os.RemoveAll(d)
+		treeJobs++
+	}
 	for i, j := range jobs {
 		if i%(len(jobs)/4+1) == 0 {
 			c.addSample(map[string]any{"what": j.what, "program": j.text, "must_equal_program": j.same, "fresh_executions": runs})
